@@ -81,6 +81,12 @@ def cell_script(spec):
         body = f"print({l} {op} {r})\n"
     elif form == "var":
         body = f"x := {l}\nx {op}= {r}\nprint(x)\n"
+    elif form == "if-condition":
+        body = f"if {l} {op} {r} {{\n    print(true)\n}} else {{\n    print(false)\n}}\n"
+    elif form == "while-condition":
+        body = f"zr := false\nwhile {l} {op} {r} {{\n    zr = true\n    break\n}}\nprint(zr)\n"
+    elif form == "else-if-condition":
+        body = f"if false {{\n    print(0)\n}} else if {l} {op} {r} {{\n    print(true)\n}} else {{\n    print(false)\n}}\n"
     elif form == "in-list":
         body = f"print([{l}] {op} [{r}])\n"
     elif form == "in-list-twice":
@@ -302,6 +308,13 @@ def all_specs():
                 for l in REPS[lk]:
                     for r in REPS[rk]:
                         specs.append({"op": op, "form": "plain", "lk": lk, "rk": rk, "l": l, "r": r})
+    for op in ("&&", "||", "<", "=="):      # the operator as the outermost expression of a condition: same cell, same outcome
+        for form in ("if-condition", "while-condition", "else-if-condition"):
+            for lk in KINDS:
+                for rk in KINDS:
+                    for l in REPS[lk]:
+                        for r in REPS[rk]:
+                            specs.append({"op": op, "form": form, "lk": lk, "rk": rk, "l": l, "r": r})
     for op in ("==", "!="):                 # the same operands one level down: the element comparison is the same cell
         for form in ("in-list", "in-list-twice", "in-object"):
             for lk in KINDS:
@@ -356,6 +369,7 @@ def run(ctx, model_ok):
     ctx.cov["matrix_cells"] = {"plain": sum(1 for c in cells if c[1] == "plain"),
                                "op_assign": sum(1 for c in cells if c[0] != "ctx" and c[1] in TARGETS),
                                "nested_equality": sum(1 for c in cells if c[0] != "ctx" and c[1].startswith("in-")),
+                               "as_condition": sum(1 for c in cells if c[0] != "ctx" and c[1].endswith("-condition")),
                                "contexts": sum(1 for c in cells if c[0] == "ctx")}
     seen = set()
     failing = set()
